@@ -198,7 +198,7 @@ pgt_aarch64_lpa(addrxlat_step_t *step)
 	if (!PTE_VALID(pte))
 		return pte_not_present(step);
 
-	step->base.addr = PTE_VAL(pte, 0, 47) | (PTE_VAL(pte, 12, 4) << 48);
+	step->base.addr = PTE_VAL(pte, 0, 48) | (PTE_VAL(pte, 12, 4) << 48);
 	step->base.as = step->meth->target_as;
 
 	if (PTE_TYPE(pte) == PTE_TYPE_BLOCK) {
@@ -235,7 +235,7 @@ pgt_aarch64_lpa2(addrxlat_step_t *step)
 	if (!PTE_VALID(pte))
 		return pte_not_present(step);
 
-	step->base.addr = PTE_VAL(pte, 0, 49) | (PTE_VAL(pte, 8, 2) << 50);
+	step->base.addr = PTE_VAL(pte, 0, 50) | (PTE_VAL(pte, 8, 2) << 50);
 	step->base.as = step->meth->target_as;
 
 	if (PTE_TYPE(pte) == PTE_TYPE_BLOCK) {
